@@ -222,7 +222,7 @@ CHECKS.update({
                 "running process, everything after the restart). A put or delete whose FSYNC failed behind the completed append "
                 "(sync=always; model failed_fsync, Store/FaultFsync.v): the running process does not see the record, a restart at "
                 "that point reads it with no other key concerned, the repaired bookkeeping (fix 6ff1d59) keeps a statistics row for "
-                "every file that holds a record while the pinned one loses it, and the history of that finding computed in the "
+                "every file that holds a record and keeps every per-file counter exact with respect to the index, while the pinned one loses the row and the count, and the history of that finding computed in the "
                 "model resurrects a deleted key under the pinned bookkeeping only (C20_failed_fsync_*); failed_fsync is compared "
                 "with the real store on every sweep case whose fault hit such an fsync (results, index, counters, file bytes, "
                 "restart). A merge pass stopped by a failing HINT write (model merge_fail_hint, Store/FaultMerge.v): with the repaired order "
